@@ -294,24 +294,77 @@ def hmac(rep, prog, tag):
     if not fin or not ini:
         rep.violation("ANCHOR", "HMAC init/final" + tag, "no function below crypto_auth_init/crypto_auth_final drives two SHA-512 contexts")
         return
+    # roles of the two contexts, not their names: the inner context is the one message bytes go to
+    # (below crypto_auth_update); the outer one is the other field of the same state record
+    upd = find_under("classic::crypto_auth::crypto_auth_update", lambda g: any(
+        c.args and len(c.args) == 2 and operand_locals(c.args[1]) and cm.view_info(g, list(operand_locals(c.args[1]))[0])[0] in range(1, g.argc + 1)
+        for c in sha_calls(g, "update")))
+    if not upd:
+        rep.violation("ANCHOR", "HMAC update" + tag, "no function below crypto_auth_update feeds the message to a SHA-512 context")
+        return
+    u = upd[0]
+    inner = None
+    for c in sha_calls(u, "update"):
+        e = expr_of_operand(u, c.args[0])
+        if e.k == "field":
+            inner = e.b.split(".")[-1]
     f = fin[0]
     seq = []
+    calls_ = []
     for c in sorted(f.calls(), key=lambda c: (len(f.dom.get(c.bb, ())), c.bb)):
         if c.is_local and c.rpath.startswith("sha512::Sha512::"):
             fld = expr_of_operand(f, c.args[0])
             seq.append((c.name, repr(fld).split(".")[-1]))
-    want = [("finalize_into_bytes", "ictx"), ("update", "octx"), ("finalize_into_bytes", "octx")]
-    rep.ob("HMAC", "final = H(opad-state || H(ipad-state...))" + tag, seq == want, "final performs %s" % seq, loc=f.loc())
+            calls_.append(c)
+    names = {n_ for _, n_ in seq}
+    outer = next(iter(names - {inner}), None) if len(names) == 2 else None
+    fin_names = ("finalize_into_bytes", "finalize")
+    ok = inner is not None and outer is not None and len(seq) == 3 and seq[0][0] in fin_names and seq[0][1] == inner and \
+        seq[1] == ("update", outer) and seq[2][0] in fin_names and seq[2][1] == outer
+    if ok:
+        # the outer context absorbs the inner digest
+        d_in = cm.view_info(f, list(operand_locals(calls_[0].args[1]))[0])[0] if len(calls_[0].args) > 1 and operand_locals(calls_[0].args[1]) else calls_[0].dest["l"]
+        d_up = cm.view_info(f, list(operand_locals(calls_[1].args[1]))[0])[0]
+        ok = d_in == d_up
+    rep.ob("HMAC", "final = H(opad-state || H(ipad-state...))" + tag, ok,
+           "final performs %s; inner (message) context is `%s`, outer `%s`" % (seq, inner, outer), loc=f.loc())
     g = ini[0]
     ups = [c for c in g.calls() if c.rpath == "sha512::Sha512::update"]
+    # which local context ends up in which field of the returned record
+    role_of_local = {}
+    for b_, i_, st_ in g.assigns():
+        rv = st_["rv"]
+        if rv["k"] == "agg" and rv.get("agg") == "adt" and rv.get("fields"):
+            for nm, o in zip(rv["fields"], rv["ops"]):
+                for l in operand_locals(o):
+                    role_of_local[cm.view_info(g, l)[0]] = nm
     targets = []
     for c in ups:
         r = cm.view_info(g, list(operand_locals(c.args[0]))[0])[0]
-        targets.append(g.local_name(r))
+        targets.append(role_of_local.get(r, g.local_name(r)))
     rets = [b for b in range(g.n) if g.blocks[b]["t"]["k"] == "return"]
-    ok = len(ups) == 2 and sorted(targets) == ["ictx", "octx"] and all(all(c.bb in g.dom.get(r, ()) for r in rets) for c in ups) and \
+    ok = len(ups) == 2 and sorted(targets) == sorted([inner or "?", outer or "?"]) and all(all(c.bb in g.dom.get(r, ()) for r in rets) for c in ups) and \
         not any(c.bb in g.reachable_from_after(c.bb) for c in ups)
     rep.ob("HMAC", "pads absorbed once each in init" + tag, ok, "init updates %s" % targets, loc=g.loc())
+    # ipad (0x36) goes to the inner context, opad (0x5c) to the outer one
+    from ..expr import call_arg_exprs, evaluate, deep_repr
+    if len(ups) == 2:
+        by_role = dict(zip(targets, ups))
+        consts_ = {}
+        for role, c in by_role.items():
+            root = cm.view_info(g, list(operand_locals(c.args[1]))[0])[0]
+            # the pad value in force at this update: the last whole-buffer fill dominating it, else the
+            # buffer's initial repeat value
+            fills = [x for x in g.calls() if x.path == "core::slice::<impl [T]>::fill" and x.bb in g.dom.get(c.bb, ()) and
+                     cm.view_info(g, list(operand_locals(x.args[0]))[0])[0] == root]
+            if fills:
+                last = [x for x in fills if not any(x.bb in g.dom.get(y.bb, ()) and x is not y for y in fills)]
+                consts_[role] = evaluate(call_arg_exprs(last[0])[1], {})
+            else:
+                e = expr_of_operand(g, {"k": "copy", "l": root, "p": []})
+                consts_[role] = evaluate(e.a, {}) if e.k == "repeat" else None
+        rep.ob("HMAC", "ipad 0x36 -> inner, opad 0x5c -> outer" + tag, consts_.get(inner) == 0x36 and consts_.get(outer) == 0x5c,
+               "pad constants by context: %s" % consts_, loc=g.loc())
 
 
 def buffer_invariants(rep, prog, tag):
@@ -348,6 +401,13 @@ def buffer_invariants(rep, prog, tag):
             continue
         fld = fields[0]
         bound = B - 1 if kind == "poly" else B
+        # private helpers (padding, buffering) are folded in; the block routine - the crate-local callee
+        # shared by update and finalize - stays a call
+        from ..inline import inline
+        f0 = f
+        fins0 = [g for g in prog.fns if g.path == f.path.rsplit("::", 1)[0] + "::finalize"]
+        shared = {c.rkey for c in f0.calls() if c.is_local} & {c.rkey for g in fins0 for k_ in prog.reach_fns([g]) for c in prog.by_key[k_].calls() if c.is_local}
+        f = inline(prog, f0, keep=(lambda g_: g_.key in shared,))
         it = absint.Interp(prog, f, [fld], lambda st: [L.ge(L.lin_const(bound), st.vec[fld])])
         exits = it.run()
         n += 1
@@ -372,8 +432,8 @@ def buffer_invariants(rep, prog, tag):
             rep.note("BUFINV %s: %s" % (f.path, sorted(set(it.notes))[:3]))
         # finalize side (Poly1305): the partial-block call receives exactly one block
         if kind == "poly":
-            fins = [g for g in prog.fns if g.path == f.path.rsplit("::", 1)[0] + "::finalize"]
-            for g in fins:
+            for g0 in fins0:
+                g = inline(prog, g0, keep=(lambda g_: g_.key in shared,))
                 blocks_fns = {c.rkey for c in f.calls() if c.is_local and c.name not in ("update",)}
                 it2 = absint.Interp(prog, g, [fld], lambda st: [L.ge(L.lin_const(bound), st.vec[fld])])
                 it2.probe = lambda c: c.is_local and c.rkey in blocks_fns
